@@ -311,6 +311,16 @@ pub(crate) struct CachedPanicResult {
     cache: HashMap<usize, PanicResult>,
 }
 
+#[cfg(feature = "verif_hooks")]
+impl CachedPanicResult {
+    pub(crate) fn result_for_hooks(&self) -> &PanicResult {
+        &self.result
+    }
+    pub(crate) fn cache_for_hooks(&self) -> &HashMap<usize, PanicResult> {
+        &self.cache
+    }
+}
+
 impl PanicResult {
     /// Returns a `PanicResult` indicating that no panic has occurred.
     pub fn ok() -> Self {
